@@ -36,7 +36,7 @@ def runs(draw, tier):
                                                                   "metadata": st.sampled_from(["none", "dict", "dict", "callable"]), "only": st.sampled_from([False, False, True])}))),
          "logger": draw(st.one_of(st.none(), st.fixed_dictionaries({"period": st.integers(1, 4), "custom": st.booleans()}))),
          "second_run": draw(st.booleans()), "log": draw(st.booleans()), "stop_in_batch": draw(st.booleans()),
-         "inspect_after_clear": draw(st.booleans()), "second_len": draw(st.sampled_from(["same", "fixed3"]))}
+         "inspect_after_clear": draw(st.booleans()), "second_len": draw(st.sampled_from(["same", "fixed3", "same_range", "same_range"]))}
     return c
 
 
@@ -255,6 +255,8 @@ def check(c):
                 # second run over a DIFFERENT epoch range; optionally of the same length as the first (same number of evaluations)
                 L2 = max(1, len(ran)) if c.get("second_len") == "same" else 3
                 base2 = c["E"] + 1 if c.get("second_len") != "same" or not ran else ran[-1] + 1 + (ran[0] % 2)
+                if c.get("second_len") == "same_range" and ran:
+                    base2, L2 = ran[0], len(ran)          # exactly the epochs of the first run again (other parameters by now, so other values)
                 ran2 = one_run(base2, base2 + L2 - 1)
             finally:
                 c["stop_at"] = c2
